@@ -192,7 +192,7 @@ def oracle_C01(cmds, impl, model, stats: Stats):
         kinds = {kd for kd, _ in tree_nodes(m["tree"])}
         tags = sorted(kinds)
         if il.startswith("err ") or il.startswith("ok exec err"):
-            e = il.split()[-1]
+            e = il.split()[1] if il.startswith("err ") else il.split()[-1]
             stats.note(m["tree_text"], False, "exec-error:" + e)
             continue  # failures to execute belong to C08
         rows = field(il, "rows")
@@ -260,6 +260,21 @@ def oracle_C06(cmds, impl, model, stats: Stats):
 def oracle_C18(cmds, impl, model, stats: Stats):
     ctx = Ctx(cmds, impl, model)
     out = []
+    # an execute call that RAISED may still have consumed an input a second time
+    for k, c in enumerate(ctx.cmds):
+        if c[0] == "exec" and impl[k].startswith("err ") and " pulls_exec=" in impl[k] and \
+                k < len(model) and model[k].startswith("ok rows"):
+            t = field(impl[k], "pulls_exec").strip("[]")
+            pi = Counter(t.split(",")) if t else Counter()
+            tm = field(model[k], "pulls_exec").strip("[]")
+            pm = Counter(tm.split(",")) if tm else Counter()
+            m = ctx.meta.get(c[1])
+            for leaf, cnt in pi.items():
+                if cnt > pm.get(leaf, 0):
+                    out.append(Violation("C18", "eager-input-consumed-again-at-a-later-execute",
+                                         f"{c[1]}: execute (which then raised {impl[k].split()[1]}) started {cnt} "
+                                         f"iterations of {leaf}, at most {pm.get(leaf, 0)} can be needed; "
+                                         f"{m['tree_text'] if m else ''}"))
     for k, name, il, sem in _exec_pairs(ctx):
         m = ctx.meta.get(name)
         if m is None or not il.startswith("ok rows"):
@@ -291,6 +306,18 @@ def oracle_C18(cmds, impl, model, stats: Stats):
                     out.append(Violation("C18", "eager-input-consumed-again-after-execute",
                                          f"{name}: {label} re-iterated {leaf} beneath a sort/deduplication/"
                                          f"materialization; {m['tree_text']}"))
+        # a materialization that was evaluated by an EARLIER execute call must not be evaluated again: the
+        # model (whose payload cache is proved write-once / evaluate-once, Props/C10, C18) says which leaf
+        # iterations this execute call may start
+        if k < len(model) and model[k].startswith("ok rows"):
+            tm = field(model[k], "pulls_exec").strip("[]")
+            pm = Counter(tm.split(",")) if tm else Counter()
+            for leaf, cnt in pe.items():
+                if cnt > pm.get(leaf, 0) and ({"mat", "u:sort", "u:dedup"} & kinds):
+                    out.append(Violation("C18", "eager-input-consumed-again-at-a-later-execute",
+                                         f"{name}: execute started {cnt} iterations of {leaf}, at most "
+                                         f"{pm.get(leaf, 0)} can be needed (cached materialization / consumed input); "
+                                         f"{m['tree_text']}"))
         if field(il, "again") != "same":
             out.append(Violation("C18", "repeated-iteration-differs", f"{name}: {m['tree_text']}"))
         # "results can be iterated repeatedly with identical rows": also across executions of other
@@ -320,6 +347,23 @@ def oracle_C04(cmds, impl, model, stats: Stats):
             if first == "-" and second != cur:
                 out.append(Violation("C04", "refusal-does-not-return-existing-operation",
                                      f"{cmds[k]}: second={second} cur={cur}"))
+        elif c[0] == "commutej":
+            il = impl[k]
+            if not il.startswith("ok "):
+                continue
+            first = field(il, "first")
+            curk = c[4][0]
+            stats.note(cmds[k], first != "-", "pair:join>" + curk, "moved" if first != "-" else "refused")
+            m = re.match(r"ok first=(\S+) second=(.*) done=(\S) cur=(.*?)(?: wf=(\S))?$", il)
+            if m:
+                _, second, _, cur, wf = m.groups()
+                if first == "-" and second != cur:
+                    out.append(Violation("C04", "refusal-does-not-return-existing-operation",
+                                         f"{cmds[k]}: second={second} cur={cur}"))
+                if first != "-" and wf != "T":
+                    out.append(Violation("C04", f"commuted-operations-ill-formed:join>{curk}",
+                                         f"{cmds[k]}: the reported first (the join) or second operation is not "
+                                         "well-formed on the relation it would be applied to"))
         elif c[0] == "commutesem":
             il, ml = impl[k], model[k]
             if not il.startswith("ok a="):
@@ -402,6 +446,14 @@ def oracle_C13(cmds, impl, model, stats: Stats):
     for k, cmd in enumerate(cmds):
         c = parse_cmd(cmd)
         il = impl[k]
+        if c[0] == "predjoin" and il.startswith("ok "):
+            before, after, fresh = field(il, "before"), field(il, "after"), field(il, "fresh")
+            stats.note(cmd, True, "predjoin:" + field(il, "used").split(":")[0])
+            if after != fresh or before != fresh:
+                out.append(Violation("C13", "declared-required-columns-changed-by-use",
+                                     f"{cmd}: declared {before} before the join, {after} after it; an equal "
+                                     f"freshly built predicate declares {fresh}"))
+            continue
         if c[0] == "pred" and il.startswith("ok "):
             triv, it, restricted = field(il, "triv"), field(il, "iter"), field(il, "restricted")
             flat = re.search(r" flat=(.*?) norm=", il).group(1)
@@ -588,7 +640,7 @@ def oracle_C08(cmds, impl, model, stats: Stats):
             elif il.startswith("err EngineError"):
                 stats.note(m["tree_text"], False, "iter:documented-refusal")
             elif il.startswith("err ") or il.startswith("ok exec err"):
-                err = il.split()[-1]
+                err = il.split()[1] if il.startswith("err ") else il.split()[-1]
                 out.append(Violation("C08", f"accepted-tree-fails:iteration:{err}",
                                      f"{c[1]}: {il}; tree {m['tree_text']}"))
         elif c[0] in ("apply", "join", "chain", "mat", "transfer") and il.startswith("err "):
@@ -714,7 +766,7 @@ def exec_rows_after(ctx: Ctx, k: int, name: str):
             il, ml = ctx.impl[j], ctx.model[j]
             if il.startswith("ok rows"):
                 return field(il, "rows"), field(ml, "order") == "exact", field(ml, "det") != "F", None, j
-            return None, False, True, il, j
+            return None, False, True, re.sub(r" pulls_exec=\S+", "", il), j
         if c[0] == "sqlexec" and c[1] == name and not ctx.impl[j].startswith("bad-"):
             il, ml = ctx.impl[j], ctx.model[j]
             if il.startswith("ok rows0"):
